@@ -88,9 +88,14 @@ ExpiredHeightOf(start, rules) ==
 (* have accrued (height - lastH) * rpb per denom into rps when someone is  *)
 (* staked, the collected coins have moved FARM -> COLL, total += amount,   *)
 (* lastH = h; with isDestroy the pool is closed at h.                      *)
-(* A failure after the first SetRewardRule leaves partial writes behind;   *)
-(* inside a message they are rolled back, inside EndBlock they are not —   *)
-(* UpdatePoolPartial models the latter.                                    *)
+(* A failure after the first SetRewardRule (remaining < collected for a     *)
+(* later denom) leaves partial writes behind; inside a message they are    *)
+(* rolled back, inside EndBlock (abci.go swallows Refund's error) they are *)
+(* not.  The failure is unreachable in the unchanged code: remaining >=     *)
+(* rpb * (end - max(lastH, start)) is an invariant (creation: end = start + *)
+(* floor(total/rpb); AdjustPool: X06_AdjustGuard; releases preserve it),   *)
+(* so the partial writes are not modelled - a tree that reaches them is    *)
+(* judged by the clauses on the observed states, and drifts.               *)
 (***************************************************************************)
 Accrues(s, p) == s.h > s.pools[p].lastH /\ s.pools[p].total > 0
 
@@ -591,6 +596,18 @@ DoReimport(s) ==
                               p \in {q \in DOMAIN s.pools : s.h <= s.pools[q].end}}],
        EmptyF)
 
+(* farmer.go Stake / Unstake with a coin of another denomination than the pool's
+   staking token (a reward denom, the fee denom, a plain coin whose denom is
+   shaped like a pool share denom, the staking token in another case): whatever
+   state the pool is in and whoever sends it, the message is rejected - unknown
+   pool, not started, expired, or ErrNotMatch (every pool of the model stakes LP;
+   DoCreatePool accepts no other staking token).  Kept under event names of their
+   own so that the official C05 clauses about Stake / Unstake speak, as the
+   property does, about the staked token only. *)
+OtherDenomOps == {"StakeOther", "UnstakeOther"}
+DoOtherDenom(s, who, p, den, amt) ==
+  IF p \notin DOMAIN s.pools THEN Fail(s) ELSE FailW(s, "denom")
+
 (* Dispatch on an event record: the deterministic step function *)
 Apply(s, e) ==
   CASE e.name = "CreatePool" -> DoCreatePool(s, e.who, e.lpt, e.start, e.rpb, e.total, e.editable)
@@ -606,6 +623,11 @@ Apply(s, e) ==
     [] e.name = "Vote"        -> DoVote(s, e.who, e.pool, e.lpt)
     [] e.name = "CancelProposal" -> DoCancel(s, e.who, e.pool)
     [] e.name = "Reimport"    -> DoReimport(s)
+    [] e.name \in OtherDenomOps -> DoOtherDenom(s, e.who, e.pool, e.lpt, e.amt)
+    \* CreatePool with a start height of MaxInt64 - e.start: types/farm.go ExpiredHeight
+    \* refuses (start + budget/rate leaves int64) after the fee and the budget were
+    \* taken and the rules written - inside a message, so everything is rolled back
+    [] e.name = "CreatePoolFar" -> FailW(s, "end_overflow")
     [] OTHER -> Fail(s)
 
 -----------------------------------------------------------------------------
@@ -1019,6 +1041,9 @@ X06_OneOutcome_ModCancel(t, g) ==
    pools, stakes, the rebuilt queue, escrow records, proposals, every balance *)
 X12_Farm_RoundTrip(s, e, t) == (e.name = "Reimport") => (e.ok /\ t = s)
 
+(* a coin of another denomination is never taken as, or paid out for, a stake *)
+X05_OtherDenomRejected(e) == (e.name \in OtherDenomOps) => ~e.ok
+
 (* no message of the module panics *)
 X06_CPNoPanic(e) == (e.name = "CreatePoolCP") => ~e.panic
 X06_AdjustNoPanic(e) == (e.name = "AdjustPool") => ~e.panic
@@ -1171,6 +1196,26 @@ Unstake ==
 Harvest ==
   \E who \in Users, p \in DOMAIN st.pools :
     Step(E("Harvest", who, p, 0, "", EmptyF, EmptyF, 0, FALSE))
+(* probes with ids and denoms of the wrong kind (generator only: none of them
+   changes the state, so the exhaustive configurations have nothing to explore) *)
+OddDenoms == RDenoms \cup {FeeDenom, "lpt-2", "LPT-1"}
+OddPools == {"farm-0", "farm-01", "farm-10", "farm-", "1", "Farm-1", "lpt-1"}
+OtherDenom ==
+  \E nm \in OtherDenomOps, who \in Users, p \in DOMAIN st.pools, d \in OddDenoms, a \in 1..MaxStake :
+    Step(E(nm, who, p, a, d, EmptyF, EmptyF, 0, FALSE))
+OddPool ==
+  \E nm \in {"Stake", "Unstake", "Harvest", "DestroyPool"}, who \in Users, p \in OddPools :
+    Step(E(nm, who, p, IF nm \in {"Stake", "Unstake"} THEN 1 ELSE 0, "", EmptyF, EmptyF, 0, FALSE))
+OddCreate ==
+  \E who \in Creators, lpt \in OddDenoms \cup {"lpt-11", "lpt-"}, total \in Coins1(RDenoms, RewardTotals) :
+    \E rpb \in [DOMAIN total -> RewardRates] :
+      Step(E("CreatePool", who, "", 0, lpt, total, rpb, st.h, TRUE))
+OddAdjust ==
+  \E who \in Users, p \in DOMAIN st.pools, top \in BOOLEAN :
+    \E d \in (OddDenoms \cup {LP}) \ DOMAIN st.pools[p].rules :
+      Step(E("AdjustPool", who, p, 0, "", IF top THEN (d :> 1) ELSE EmptyF,
+             IF top THEN EmptyF ELSE (d :> 1), 0, FALSE))
+
 Donate ==
   \E who \in Users, d \in RDenoms \cup {LP}, a \in Donations :
     Step(E("Donate", who, "", a, d, EmptyF, EmptyF, 0, FALSE))
@@ -1243,6 +1288,29 @@ SinceEnd(h) ==
 GenNextB == GenNext /\ (ev'.name # "EndBlock" => SinceEnd(hist) < GenBurst)
 GenSpecB == Init /\ [][GenNextB]_vars
 GenDepth == atoi(IOEnv.GEN_DEPTH)
+
+(* Probe generator (negative probing): the behaviour first gets somewhere -
+   accepted events only, blocks keep coming (GenNextB) - and then ends with
+   ProbeLen events that the specification REJECTS, all aimed at the deep state
+   reached: operations on pools that have not started, have ended, were
+   destroyed before or after their start, by creators, farmers and strangers,
+   and operations with ids and denoms of the wrong kind.  The probes go into
+   the block of the last accepted messages ("same block as the transition").
+   The driver appends its epilogue - every farmer the REAL chain records
+   withdraws everything, the pools run to their ends - so whatever the code
+   wrongly accepted is followed up and judged by the clauses. *)
+ProbeLen == 4
+InProbe == Len(hist) + ProbeLen >= GenDepth
+ProbeOf(A) == InProbe /\ A /\ ~ev'.ok
+GenNextP ==
+  \/ (~InProbe /\ GenNextB /\ ev'.ok)
+  \/ ProbeOf(Stake) \/ ProbeOf(Unstake) \/ ProbeOf(Harvest)
+  \/ ProbeOf(DestroyPool) \/ ProbeOf(AdjustPool) \/ ProbeOf(CreatePool)
+  \/ ProbeOf(OtherDenom) \/ ProbeOf(OddPool) \/ ProbeOf(OddCreate) \/ ProbeOf(OddAdjust)
+  \* the proposal life cycle (configurations with GovOn): refused submissions, deposits,
+  \* votes and cancellations on proposals in every state
+  \/ ProbeOf(CreatePoolCP) \/ ProbeOf(Deposit) \/ ProbeOf(Vote) \/ ProbeOf(CancelProposal)
+GenSpecP == Init /\ [][GenNextP]_vars
 GenConstraint ==
   /\ Len(hist) <= GenDepth
   /\ (Len(hist) = GenDepth) => PrintT(<<"BEHAVIOUR", ToJson(hist)>>)
@@ -1275,6 +1343,7 @@ Act_X12_Farm_RoundTrip == [][X12_Farm_RoundTrip(st, ev', st')]_vars
 Act_X06_CPNoPanic == [][X06_CPNoPanic(ev')]_vars
 Act_X06_AdjustNoPanic == [][X06_AdjustNoPanic(ev')]_vars
 Act_X06_AdjustGuard == [][X06_AdjustGuard(st, ev', st')]_vars
+Act_X05_OtherDenomRejected == [][X05_OtherDenomRejected(ev')]_vars
 Inv_C13_QueueSound == C13_QueueSound(st)
 Inv_C13_QueueComplete == C13_QueueComplete(st, gh)
 Inv_C13_NoHalt == C13_NoHalt(ev)
